@@ -15,6 +15,26 @@ ENGINES = [
 TB = 'trusted: the harness code and its oracles, rustc/std, Python 3 stdlib; decides only the executions it produced'
 
 META = {
+    'C01': dict(claimed=True, engine='svh c01 + monitors/check_c01.py', category='exploration', design_ref='DESIGN.md §4 C01',
+                technique='runtime monitoring: differential round trip against the input over 18 reading routes; ring roles adjudicated offline by exact rational area',
+                text='Held on every generated sequence and route except the listed known finding (ring role lost when the f64 orientation test loses the sign of the exact area); sampled input space steered at special values, Miri shards in the thorough tier.',
+                note=TB + '; rings with non-finite coordinates carry no role claim'),
+    'C02': dict(claimed=True, engine='svh c02 + monitors/check_c02.py (shpref.py)', category='exploration', design_ref='DESIGN.md §4 C02',
+                technique='runtime monitoring: offline strict validator/decoder written from the ESRI whitepaper over the bytes the real writer produced, compared with the model log',
+                text='Every produced .shp (cursor and from_path destinations, drop and finalize endings, 0..N shapes, all 13 types) passes the strict independent validator and decodes to exactly the logged geometry.',
+                note=TB + '; shpref.py is the trusted reference for the byte layout'),
+    'C03': dict(claimed=True, engine='monitors/gen_c03.py (shpref.py encoder) + svh decode + monitors/check_c03.py', category='exploration', design_ref='DESIGN.md §4 C03',
+                technique='runtime monitoring: independent reference encoder produces foreign-layout files, the real reader decodes them, offline comparison with the encoder model',
+                text='Held on every generated spec-conformant file incl. all optional-M variants, null records, empty/one-vertex parts, arbitrary boxes/record numbers and trailing bytes; guards require each layout feature to be observed.',
+                note=TB + '; only layouts the whitepaper allows'),
+    'C04': dict(claimed=True, engine='svh c04 + monitors/check_c02.py:check_c04', category='exploration', design_ref='DESIGN.md §4 C04',
+                technique='runtime monitoring: .shx bytes vs an independent walk of the .shp (offline) + in-process reader-side equalities incl. size_hint before every next',
+                text='Held on every written pair: header, length 50+4n, every entry, shape_count, random access in descending order, None past the end, iteration with == without index.',
+                note=TB),
+    'C14': dict(claimed=True, engine='monitors/gen_c14.py + svh decode + monitors/check_c14.py', category='exploration', design_ref='DESIGN.md §4 C14',
+                technique='runtime monitoring: reference encoder lays records out in every physical permutation with filler; the real indexed reader is compared with the index-order model; seeks counted on the instrumented source',
+                text='All permutations for n <= 4 (quick) / 6 (thorough) x 3 filler patterns x 6 record types; iteration, random access and count follow the index alone.',
+                note=TB),
     'C05': dict(claimed=True, engine='svh c05', category='exploration', design_ref='DESIGN.md §4 C05',
                 technique='runtime monitoring: naive min/max fold oracle over constructor boxes, record bytes and header bytes of real writer output',
                 text='Held on every generated sequence: constructor box, stored record box, header bytes 36..100 and the reader view, with extremes forced into every position class and values at/around the sentinels (+-inf, f64::MAX/MIN, +-0).',
